@@ -19,7 +19,7 @@ func init() {
 
 func runC17(c *Ctx) []Violation {
 	o := world.GenOpts{MinRecs: 3, MaxRecs: 6, Encodings: false, NoSiblingContext: true}
-	w := world.Generate(c.T, o)
+	w := genWorld(c, o)
 	c.Count("world.format."+w.Format, 1)
 	protos := append([]world.LRec{}, w.LRecs...)
 	// make sure rejected and failing prototypes exist when the tape wants them
